@@ -33,6 +33,20 @@ func wrapError(code meta.ErrCode, msg string, err error) error {
 	return meta.NewError(meta.NewErrorCode(code, meta.THRIFT), msg, err)
 }
 
+// errCodeOf returns the behavior code carried by an error of any of the types the locators return
+// (Node, Value, meta.Error); other errors are reported as read errors.
+func errCodeOf(err error) meta.ErrCode {
+	switch v := err.(type) {
+	case Node:
+		return v.ErrCode().Behavior()
+	case Value:
+		return v.ErrCode().Behavior()
+	case meta.Error:
+		return v.Code.Behavior()
+	}
+	return meta.ErrRead
+}
+
 //go:noinline
 func unwrapError(msg string, err error) error {
 	if v, ok := err.(meta.Error); ok {
